@@ -201,6 +201,12 @@ class H1Client:
         else:
             self.sess.trace.log("c_send", upto=self.pos, n=n, reqs=[], cerr=False)
 
+    def flush_pending(self) -> None:
+        if self.h2 is not None:
+            self.h2.flush_pending()
+        elif self.ws is not None:
+            self.ws.flush_logs()
+
     def ws_client(self):
         if self.ws is None:
             raise AssertionError("websocket step before the 101 was observed")
